@@ -367,11 +367,16 @@ fn main() {
             for a in 0..=255u8 {
                 for b in [0u8, 1, 7, 255] {
                     let bytes = [a, b, a ^ b, 3];
-                    if let Ok(v) = Level::arbitrary(&mut Unstructured::new(&bytes)) { seen.insert(v.into_inner()); }
+                    match std::panic::catch_unwind(|| Level::arbitrary(&mut Unstructured::new(&bytes)).ok().map(|v| v.into_inner())) {
+                        Ok(Some(v)) => { seen.insert(v); }
+                        Ok(None) => {}
+                        Err(_) => { seen.insert(i64::MIN); }      // a panic inside arbitrary()
+                    }
                 }
             }
             seen
         };
+        std::panic::set_hook(Box::new(|_| {}));
         LEVEL_LIMIT.store(3, std::sync::atomic::Ordering::SeqCst);
         let first = draw();
         LEVEL_LIMIT.store(9, std::sync::atomic::Ordering::SeqCst);
@@ -379,6 +384,7 @@ fn main() {
         let ctor_follows = Level::try_new(7).is_ok() && Level::try_new(10).is_err();
         LEVEL_LIMIT.store(1, std::sync::atomic::Ordering::SeqCst);
         let third = draw();
+        let _ = std::panic::take_hook();
         let want = |hi: i64| (0..=hi).collect::<std::collections::BTreeSet<i64>>();
         report("C14", "Level", "range_follows_bound_expression", ctor_follows && first == want(3) && second == want(9) && third == want(1),
                format!("{:?} {:?} {:?}", first, second, third));
